@@ -183,7 +183,12 @@ class Gen:
                 elif func_labels and r < 0.7:
                     t = rng.choice(func_labels)
                 elif code_labels and r < 0.85:
-                    t = rng.choice(code_labels)[1]
+                    # (not the label of a zero-sized block: which function a
+                    # call to one enters is the block's, not the code's)
+                    cands = [x for x in code_labels
+                             if x[0]["id"] not in empties]
+                    t = rng.choice(cands)[1] if cands else \
+                        rng.choice(case["externs"])
                 else:
                     t = rng.choice(case["externs"])
                 b["items"].append({"k": "call", "t": t})
@@ -231,6 +236,8 @@ class Gen:
         self.all_blocks = all_blocks
         self.code_blocks = code_blocks
         self.code_labels = [l for _, l in code_labels]
+        self.callable_labels = [l for bb, l in code_labels
+                                if bb["id"] not in empties]
         self.any_labels = any_labels
         self.func_labels = func_labels
         self.fn_of = fn_of
@@ -364,7 +371,7 @@ class Gen:
                 if in_fn:
                     pool += [in_fn] * 2
                 pool += self.case["externs"]
-                pool += self.code_labels[:3]
+                pool += self.callable_labels[:3]
                 lines.append({"k": "call", "t": rng.choice(pool)})
                 if self.knobs.get("double_call_p") and \
                         rng.random() < self.knobs["double_call_p"]:
